@@ -150,7 +150,7 @@ def spec(tier, seed):
         for how in ("copy", "pickle", "ctor"):
             for s in sh[cls]:
                 units.append(("C07.equal", {"cls": cls, "shape": s, "how": how}))
-            for s in esh[cls]:
+            for s in (esh[cls] if how == "copy" or tier != "quick" else esh[cls][:2]):
                 for op in OPS[cls]:
                     if op in HEAVY[cls] and tier == "quick" and not op.endswith(("_2", "_5")):
                         continue
